@@ -124,6 +124,12 @@ def engines(rc):
     rc.ob("_update_belief edits only the engine's own junction tree, then calibrates")
 
 
+
+@rule("C17.defuse", "anchored files: every parameter is read, no value is computed and dropped (generic def-use detectors, triaged hit list)", floor=2)
+def defuse(rc):
+    from . import shared as _sh
+    _sh.defuse_rule(rc, _sh.anchor_files("C17"))
+
 MUTANTS = [
     dict(kind="break", name="initial-state-literal-two", file=DBN, expect="C17.recreate",
          old="np.reshape(cpd.values, (cpd.variable_card, -1)),", new="np.reshape(cpd.values, (2, -1)),"),
